@@ -15,18 +15,17 @@ let addr_diverged = ref false
 let parse_mail_table pip t =
   List.map (fun e ->
     match String.split_on_char ':' e with
-    | [arg; m; hp; pok; size; oa; od; g1] ->
-        (* the origin is computed by the address model from capture group 1 of the MAIL pattern;
-           the driver's own ParseOrigin answer (oa, od) is only cross-checked *)
-        let origin = match opt_str g1 with Some a when m = "1" -> origin_of pip a | _ -> None in
+    | [arg; m; hp; pok; size; oa; od; _g1] ->
+        (* the facts are computed by the model (RE2 programs of the two patterns + address model);
+           the driver's answers from the real functions are only cross-checked *)
         let impl_origin = (match opt_str oa, opt_str od with
                         | Some a, Some d -> Some { o_addr = a; o_domain = d }
                         | _ -> None) in
-        if m = "1" && origin <> impl_origin then addr_diverged := true;
-        (str_of_field arg,
-         { mf_match = (m = "1"); mf_has_params = (hp = "1"); mf_params_ok = (pok = "1");
-           mf_size = opt_str size;
-           mf_origin = origin })
+        let impl = { mf_match = (m = "1"); mf_has_params = (hp = "1"); mf_params_ok = (pok = "1");
+                     mf_size = opt_str size; mf_origin = impl_origin } in
+        (match mail_facts_of pip (str_of_field arg) with
+         | Some f -> if f <> impl then addr_diverged := true; (str_of_field arg, f)
+         | None -> addr_diverged := true; (str_of_field arg, impl))
     | _ -> failwith ("bad mail table entry " ^ e)) (split ',' t)
 
 let parse_rcpt_table pip mode t =
